@@ -187,6 +187,8 @@ def run_case(case):
     )
     out = []
     for n, ops in enumerate(case["exprs"]):
+        if n % 20 == 19:
+            __import__("vf.runner").runner.touch()  # a batch reports progress to the process watchdog
         # domain guard: xarray must accept the operation on a trivially correct backend and
         # produce there what it produces in memory (otherwise the limitation is xarray's own)
         expected, err = harness.guard(run_ops, twin, ops)
